@@ -1,13 +1,26 @@
 """C16 — graph manipulation (clone / bind / checkpoint / wait_on) keeps values and changes only keys and ordering.
 
-Model:    lean/DaskModel/Model/Rename.lean (renameNode = GraphNode.substitute-based key regeneration, cloneValue =
-          Layer.clone.clone_value, bindNode, checkpointReduce)
-Theorems: lean/DaskModel/Props/C16.lean
-Tie:      function-level: `MaterializedLayer.clone(keys, seed, bind_to)` on legacy and task-spec layers against the
-          model (the renaming is the real `clone_key`, handed to the model as a finite map); the reduce layer of
-          `checkpoint(.., split_every)` against `checkpointReduce`.  API-level: arrays, bags and delayed trees through
-          clone (omit / seeds / assume_layers), bind (parents, omit), wait_on, checkpoint: values, key disjointness, and the
-          happens-before relation read from a recording scheduler callback.
+Model:    lean/DaskModel/Model/Rename.lean
+            renameNode (= GraphNode.substitute-based key regeneration), cloneValue (= Layer.clone.clone_value), bindNode;
+            cloneSpecLayer / cloneLegacyLayer  = the whole loop of `Layer.clone` (both branches, with `bound`);
+            blockwiseClone                     = `Blockwise.clone` (indices / numblocks / output / task wrapper / bound);
+            cloneLoop, verbLoop, bindOne       = `_bind_one`'s two worklists over layer names, new_layers / new_deps;
+            checkpointReduce / checkpointReduce? = the aggregation loop of `_checkpoint_one` (the latter with an explicit
+                                                 "fuel exhausted" result)
+Theorems: lean/DaskModel/Props/C16.lean (helper lemmas in Lemmas/Rename*.lean)
+Tie:      function level:
+            `layer`           MaterializedLayer.clone(keys, seed, bind_to) on legacy and task-spec layers vs clone_legacy_layer /
+                              clone_spec_layer (layer and `bound`; the renaming is the real clone_key, handed over as a finite map)
+            `bw_layer`        Blockwise.clone on map_blocks / blockwise / elemwise layers with Delayed / Item / 0-d / array /
+                              literal arguments x omit subsets vs bw_clone (new indices, numblocks, output, task key, wrapper, bound)
+            `bind_layers`     layers / dependencies of the HighLevelGraph returned by the real bind / clone on DAG-shaped
+                              collections (arrays, bags, delayed; omit subsets incl. the child; parents inside / outside the
+                              child's graph; assume_layers) vs bind_one (is_bound per layer from the real layer.clone), two pop
+                              orders, + HighLevelGraph.validate(), values, statement-level oracles
+            `checkpoint_tree` reduce layer of checkpoint(bag, split_every) vs checkpoint_reduce2, tree shape
+          API level (`api`): arrays, bags, delayed trees, Blockwise layers with collection arguments, dask DataFrames through
+            clone (omit / seeds / assume_layers), bind (parents, omit), wait_on, checkpoint: values, key disjointness, and the
+            happens-before relation read from a recording scheduler callback (sync and threaded).
 """
 from __future__ import annotations
 
@@ -20,25 +33,55 @@ PROP = "C16"
 READY = True
 DRIVER = "dm_graph"
 LEAN_MODULES = ["DaskModel.Props.C16"]
-LEVEL_TEXT = ("Lean 4 theorems over a model of key regeneration: clone_values (for every injective renaming rho, graph, cache and "
-              "depth the regenerated key rho(k) denotes in the renamed graph what k denotes in the original; through aliases, "
-              "TaskRefs, nested tasks/containers/kwargs), clone_keys_disjoint (fresh renaming => only omitted keys are shared), "
-              "bind_values / bind_waits (chunks.bind(node, blocker) computes node's value once the blocker has one, lists the blocker "
-              "as a dependency and cannot be evaluated before it), checkpoint_reaches_all (every input key feeds through the "
-              "split_every aggregation tree into the final node, for every split_every and fuel) and checkpoint_none. PARTIAL: the "
-              "leaf decision of Blockwise.clone is modelled (blockwiseLeaf, blockwiseLeaf_of_all_omitted: a regenerated layer whose "
-              "inputs -- array names or TaskRefs to Delayed/Item/scalar collections -- are all omitted is a leaf and gets bound) and "
-              "diffed; the remaining glue (layer selection in _bind_one, Blockwise index rewriting, HighLevelGraph dependencies, rebuild/rename) is "
-              "validated through values, key sets and execution logs, not proved; happens-before on real schedulers relies on C02. "
-              "Known findings: assume_layers=False with omit, and a child listed in omit, give uncomputable results; Layer.clone renames "
-              "key-like dict values that the evaluation treats as literals.")
-LEVEL_NOTE = ("Trusted: Lean kernel + standard axioms; clone_key/tokenize treated as an injective fresh renaming (the real renaming is "
-              "handed to the model as a finite map and its freshness is checked per case); function-level diff of "
-              "MaterializedLayer.clone on legacy and task-spec layers and of checkpoint's reduce layer; API-level runs on arrays, bags, "
-              "delayed trees with recording callbacks (sync and threaded). Fixed in /repo: Layer.clone ignored task-spec nodes "
-              "(clone/bind of Delayed chains raised Missing dependency).")
-TECHNIQUE = "Lean 4 proof (renaming lemma, bind/checkpoint nodes, aggregation-tree reachability) + differential correspondence + execution logs"
-ASSUMPTIONS = ["clone_key(k, seed) is injective and fresh (tokenize is treated as collision-free on the compared keys)",
+LEVEL_TEXT = ("Lean 4 theorems, for all inputs, over executable models that are diffed against the real functions. "
+              "(1) Key regeneration: clone_values (injective renaming rho: rho(k) denotes in the renamed graph what k denotes in the "
+              "original, through aliases, TaskRefs, nested tasks/containers/kwargs), clone_keys_disjoint, bind_values / bind_waits. "
+              "(2) Layer.clone as a whole (cloneSpecLayer / cloneLegacyLayer): layer_clone_values and layer_clone_bound_values (relative to "
+              "a finite key universe on which the applied renaming is injective -- derived from clone_key injective + fresh -- the cloned "
+              "layer computes under the regenerated keys exactly the original values, with and without blocker), layer_clone_waits (while the "
+              "blocker has no value no regenerated key of a bound layer can be evaluated, at any depth), leaves wrapped in chunks.bind / "
+              "inner entries renamed only / entries outside keys untouched, bound iff a leaf was wrapped; legacy branch: legacy_clone_values "
+              "(clone_value keeps the value of every legacy object, and the cloned layer computes the original values fuel for fuel, under "
+              "the statement's legacy semantics; no blocker), clone_value's is_leaf = no reference in the sense of keys_in_tasks, bound iff, "
+              "a wrapped leaf lists the blocker. "
+              "(3) _bind_one's bookkeeping over layer names (bindOne, every pop order of the two Python sets): terminates without KeyError "
+              "with fuel #child layers + 2*#edges, result is a well-formed HighLevelGraph (same duplicate-free keys in layers and "
+              "dependencies, no dangling dependency), a layer is regenerated iff reachable from the child's layers without entering an omitted "
+              "layer (the child's own layers always are), copied verbatim iff omitted-and-needed (transitively), new dependency sets = renamed "
+              "regenerated deps + omitted deps + blocker iff bound, every bound layer depends on the checkpoint layer and (acyclic graph, "
+              "leaves bound) the checkpoint is reachable from every regenerated layer, only omitted / blocker layers keep original names, "
+              "result independent of pop order and fuel. "
+              "(4) Blockwise.clone (blockwiseClone): bound iff blocker given and is_leaf, the wrapper task reads the appended blocker "
+              "argument, the names the rewritten layer refers to are exactly _bind_one's new dependency set, it refers to the regenerated "
+              "name of an input iff that input is regenerated. "
+              "(5) checkpoint: every input key feeds through the split_every tree into the final node (any fuel), chunks.checkpoint computes "
+              "None, the loop's fuel len+1 suffices and the result is fuel-independent for split_every=False or >=2, every inner node has "
+              "exactly split_every inputs and the final one at most, split_every=1 would not terminate (why checkpoint raises). "
+              "PARTIAL / validated only: the value of a *legacy* leaf wrapped as (chunks.bind, value, blocker) (the legacy model leaves "
+              "chunks.bind uninterpreted; proved on the task-spec side), the computation of clone_keys / omit_layers in _bind_one (incl. assume_layers=False), that the per-layer is_bound handed to bindOne "
+              "is what Layer.clone returns (taken from the real method), materialisation of the rewritten Blockwise layer, "
+              "rebuild/rename of the collection, wait_on's layers -- validated through the function-level diffs, HighLevelGraph.validate(), "
+              "values, key sets and execution logs; happens-before on real schedulers relies on C02. "
+              "Known findings: a child listed in omit gives an uncomputable result; clone/bind/wait_on reject dask DataFrames (rebuild has no "
+              "rename=); bind with a DataFrame parent can fail in the array optimizer; a bound bag partition read twice loses elements under "
+              "bag optimisation.")
+LEVEL_NOTE = ("Trusted: Lean kernel + standard axioms; clone_key/tokenize treated as an injective fresh renaming on the compared names "
+              "(the real renaming is handed to the model as a finite map; freshness is checked per case and cases violating it are only "
+              "diffed, not judged); hand-written models tied to /repo by function-level diffs of MaterializedLayer.clone, Blockwise.clone, "
+              "the layers/dependencies of real bind/clone results and checkpoint's reduce layer; API-level runs on arrays, bags, delayed "
+              "trees, Blockwise layers with collection/literal arguments and DataFrames with recording callbacks (sync and threaded). "
+              "Fixed in /repo: 52ea555 (Layer.clone ignored task-spec nodes), 1aebbe7 (Alias.substitute key), b418ebb (Blockwise.clone "
+              "renamed literal arguments equal to a layer name: clone changed values), d1ed5a6 (assume_layers=False with omit renamed the "
+              "omit collections' layers: uncomputable results); the dict-value divergence of Layer.clone was resolved by C08's ca6daad.")
+TECHNIQUE = ("Lean 4 proof (renaming lemmas relative to a finite universe, worklist-loop invariants for every pop order with a fuel measure, "
+             "reachability characterisation of regenerated/verbatim layers, aggregation-tree shape) + differential correspondence at "
+             "function and API level + execution logs")
+ASSUMPTIONS = ["clone_key(k, seed) is injective and fresh on the layer names / keys of the compared graphs (tokenize is treated as "
+               "collision-free; checked per case)",
+               "a layer of the child's graph is abstracted to (dependency names, is_bound as returned by Layer.clone); layers and "
+               "dependencies of a HighLevelGraph have the same keys (checked per case)",
+               "where the blocker's graph and the child's graph share a layer name they are the same layer (needed only for "
+               "bind_one_verbatim_iff / order independence)",
                "happens-before is observed on the synchronous and threaded schedulers through pretask/posttask callbacks"]
 CASE_TIMEOUT_S = 30
 
@@ -121,16 +164,9 @@ def case_layer(ctx, inp):
                     ctx.fail(f"cloned {what} layer cannot compute {clone_key(k, seed)!r}: {type(e).__name__}: {e}")
                     break
                 if a != b:
-                    # known divergence (C08): Layer.clone renames key-like values inside dicts, which the real
-                    # evaluation treats as literals -- attributed only if the dict semantics matters for this key
-                    sig = None
-                    try:
-                        from props._graph_terms import ref_eval
-                        if to_sexp(ref_eval(dsk, k, False, True)) != to_sexp(ref_eval(dsk, k, True, True)):
-                            sig = "Layer.clone:value-changed:reference-in-dict-value"
-                    except Exception:
-                        sig = None
-                    ctx.fail(f"cloned {what} layer computes a different value", sig=sig, observed=b, expected=a)
+                    # (used to be a known divergence: Layer.clone renames key-like values inside dicts, which the
+                    # conversion did not evaluate -- resolved in /repo by ca6daad, dict values are part of the graph)
+                    ctx.fail(f"cloned {what} layer computes a different value", observed=b, expected=a)
                     break
             if set(layer_new) & set(dsk):
                 ctx.fail(f"cloned {what} layer shares keys with the original", observed=sorted(map(repr, set(layer_new) & set(dsk))))
@@ -322,20 +358,21 @@ def _mk_omit(inp, ins=None):
     return om, "prefix"
 
 
-SIG_AL = "{op}:assume_layers=False-with-omit:cannot-compute"
 SIG_SELF = "{op}:child-listed-in-omit:cannot-compute"
+SIG_DFPARENT = "bind:dataframe-parent:optimizer-KeyError"
 
 
 def _guard(ctx, op, inp, how, fn):
-    """run fn(); map the two known failure classes to their signatures, anything else is a fresh failure"""
+    """run fn(); map the known failure classes to their signatures, anything else is a fresh failure
+    (assume_layers=False with omit used to be one: repaired in /repo d1ed5a6)"""
     try:
         return True, fn()
     except Exception as e:
         sig = None
         if how == "self":
             sig = SIG_SELF.format(op=op)
-        elif how in ("prefix", "inputs") and not inp.get("assume_layers", True):
-            sig = SIG_AL.format(op=op)
+        elif op == "bind" and isinstance(e, KeyError) and (inp.get("parent") or {}).get("kind") == "frame":
+            sig = SIG_DFPARENT
         ctx.fail(f"{op} result cannot be computed: {type(e).__name__}: {str(e)[:120]}", sig=sig)
         return False, None
 
@@ -454,7 +491,7 @@ def _case_api(ctx, inp):
     if not ok:
         return
     if got != want:
-        ctx.fail("bind changes the computed value", observed=got, expected=want)
+        ctx.fail("bind changes the computed value", sig=_lazify_sig("bind", b, child), observed=got, expected=want)
     if _okeys(b) & _okeys(child) and how != "self":
         ctx.fail("bind shares output keys with the original", observed=sorted(map(repr, _okeys(b) & _okeys(child)))[:5])
     missing_parents = [k for k in _okeys(parent) if k not in b.__dask_graph__()]
@@ -719,6 +756,21 @@ def _build_dag(spec):
     return nodes
 
 
+SIG_LAZIFY = "bind:bag:bound-partition-read-twice:value-changed-under-optimization"
+
+
+def _lazify_sig(op, r, child):
+    """known finding: a bag partition that `bind` wrapped in chunks.bind(·, blocker) loses its `reify` in bag's `lazify`
+    (the wrapper hands the one-shot iterator on) — wrong only with graph optimisation, and only for bags"""
+    try:
+        import dask.bag as db
+        if op == "bind" and isinstance(child, db.Bag) and _value(r, optimize_graph=False) == _value(child):
+            return SIG_LAZIFY
+    except Exception:
+        pass
+    return None
+
+
 def case_bind_layers(ctx, inp):
     """`_bind_one`'s layer bookkeeping: `layers` / `dependencies` of the HighLevelGraph that the real `bind` / `clone`
     returns, against the model `bindOne` (real `clone_key` as a finite map; `is_bound` per layer from the real
@@ -749,6 +801,8 @@ def case_bind_layers(ctx, inp):
     bkey = blocker.key if blocker is not None else None
     bdsk = blocker.__dask_graph__() if blocker is not None else None
     child_in_omit = any(set(o.__dask_layers__()) & set(child.__dask_layers__()) for o in omit)
+    if not al and omit and not (_okeys(child) - {k for o in omit for k in o.__dask_graph__()}):
+        child_in_omit = True
     if al:
         omit_layers = {ln for o in omit for ln in o.__dask_layers__()}
         omit_keys = set()
@@ -760,6 +814,9 @@ def case_bind_layers(ctx, inp):
     for ln in omit_layers:
         if ln in dsk.layers:
             clone_keys -= dsk.layers[ln].get_output_keys()
+    if omit_keys:
+        # assume_layers=False: a layer none of whose keys is cloned is an omitted layer
+        omit_layers = omit_layers | {ln for ln, layer in dsk.layers.items() if not (layer.get_output_keys() & clone_keys)}
     leaf = {}
     for name, layer in dsk.layers.items():
         try:
@@ -815,11 +872,7 @@ def case_bind_layers(ctx, inp):
     if results[0] != results[1]:
         ctx.disagree("_bind_one model: the result depends on the pop order", results[0], results[1])
     # ---- statement-level oracles on the real result (independent of the model) ----
-    known = None
-    if child_in_omit:
-        known = SIG_SELF.format(op=inp["op"])
-    elif omit and not al:
-        known = SIG_AL.format(op=inp["op"])
+    known = SIG_SELF.format(op=inp["op"]) if child_in_omit else None
     if set(h.layers) != set(h.dependencies):
         ctx.fail("result: layers and dependencies have different keys", sig=known)
     dangling = sorted({d for ds in h.dependencies.values() for d in ds} - set(h.layers))
@@ -855,7 +908,8 @@ def case_bind_layers(ctx, inp):
         if inp.get("compute", True):
             ok, got = _guard(ctx, inp["op"], {"assume_layers": al}, None, lambda: _value(r))
             if ok and got != _value(child):
-                ctx.fail(f"{inp['op']} changes the computed value", observed=got, expected=_value(child))
+                ctx.fail(f"{inp['op']} changes the computed value", sig=_lazify_sig(inp["op"], r, child), observed=got,
+                         expected=_value(child))
     # ---- measured branches ----
     if len(cloned) >= 3:
         ctx.branch("layers:multi-layer(>=3 regenerated)")
